@@ -1,8 +1,10 @@
-(* C08/Model.v -- harness-facing checker: the regenerated validator regexes, run by the verified
-   derivative matcher, against BnodeId::new / VarName::new / LanguageTag::new. *)
+(* C08/Model.v -- harness-facing checkers: the regenerated validator regexes, run by the verified
+   derivative matcher, against BnodeId::new / VarName::new / LanguageTag::new (val3_ok); the byte -> text layer
+   of the parser entry points against String::from_utf8 and the JSON-LD parser's UTF-8 error (utf8_ok, Utf8.v). *)
 From Sophia.Common Require Export Prelude.
 From Sophia.C08 Require Export Regex.
 From Sophia.gen Require Export LabelSrc.
+From Sophia.C08 Require Export Utf8.
 
 Definition val3_ok (s : str) (bnode var tag : bool) : bool :=
   Bool.eqb (matchb bnode_id_regex s) bnode && Bool.eqb (matchb varname_regex s) var
